@@ -263,8 +263,10 @@ def gen_case(rng, big=False):
                     ops.append(f"react {w} {n} " + " ; ".join(acts))
 
     def record():
-        wd = rng.choice(pool) if rng.random() < 0.85 else rng.choice([0, 9, 99, 1000])
+        wd = rng.choice(pool) if rng.random() < 0.85 else rng.choice([0, 9, 99, 1000, -1])
         m = rng.choice([0x2, 0x100, 0x40000002, 0x200])
+        if wd == -1:
+            m = 0x4000          # IN_Q_OVERFLOW: the kernel's queue-overflow marker carries no watch descriptor; events may follow it
         if rng.random() < 0.15:
             m = IN_IGNORED if rng.random() < 0.7 else (IN_IGNORED | 0x2)
         ln = rng.choice([0, 0, 0, 16, 16, 32, 48, 64, 256])
@@ -419,7 +421,19 @@ def enum_fullbuf_cases():
     return cases
 
 
+def enum_overflow_cases():
+    """Enumerated (every run): the queue-overflow marker (wd -1, IN_Q_OVERFLOW) at the start, in the middle and at the end of a batch: the
+    records around it are delivered as usual"""
+    cases = []
+    for pos in (0, 1, 2, 3):
+        recs = ["5:2:0:0:z", "6:2:0:16:z", "5:100:0:0:z"]
+        recs.insert(pos, "-1:4000:0:0:z")
+        cases.append((f"overflow-{pos}", ["inst 0 junk ok", "watch 0 0 fff 5", "watch 1 0 fff 6", "event 0 d " + " ".join(recs), "event 0 d 6:2:0:0:z"]))
+    return cases
+
+
 def gen_cases(tier, seed):
+    yield from enum_overflow_cases()
     yield from enum_removed_cases()
     yield from enum_two_instance_cases()
     yield from enum_fullbuf_cases()
